@@ -300,6 +300,21 @@ def basis_cases(draw, max_len, nmax):
     if draw(st.integers(0, 2)) == 0:
         return draw(boundary_cases(max_len, nmax))
     if draw(st.integers(0, 3)) == 0:
+        # an element without pin words (the smallest have 6 points) listed before a pin permutation
+        # of 6 points that may be essential; two short elements keep alternations and wedges finite
+        from .c15 import non_pin_perms, pin_perms
+
+        q = draw(st.sampled_from(non_pin_perms(6)))
+        later = [r for r in pin_perms(6) if r > q] or pin_perms(6)
+        x = draw(st.sampled_from(later))
+        if draw(st.integers(0, 3)) == 0:
+            a, b = draw(st.sampled_from([[0, 1, 2], [2, 1, 0]])), list(draw(gen.perm_of(4)))
+        else:
+            a, b = [0, 1, 2], [0, 3, 2, 1]  # leaves finitely many alternations and wedge simples
+        g = draw(st.sampled_from(ref.SYMS))
+        basis = [list(ref.sym_perm(g, tuple(t))) for t in (a, b, q, x)]
+        return {"perms": basis, "nmax": min(nmax, 8), "symmetries": False}
+    if draw(st.integers(0, 3)) == 0:
         # every element essential: an increasing and a decreasing permutation of the same length
         # with a third, longer or shorter, permutation listed between them (a finite class; without
         # either monotone element unboundedly long pin sequences survive)
